@@ -1439,6 +1439,29 @@ def struct_tag_first_rule(syn, prop, rule="C01.R4"):
 
 # ------------------------------------------------------------------ shape tables (C01/C02/C14/C11)
 
+def _enum_override_order(syn, prop, r):
+    # an enum without variants is `never` only if nothing replaces its definition: the container-level `type`/`as` come first
+    ef = syn.fn("types::enum::r#enum_def", "types/enum.rs") or syn.fn("types::enum::enum_def", "types/enum.rs")
+    pos = {}
+    for e in (S.events(ef, "call") if ef else []):
+        fnm = S.squash(e["func"])
+        for key, pat in (("type", r"type_override_enum$"), ("as", r"type_as_enum$"), ("empty", r"^empty_enum$")):
+            if re.search(pat, fnm) and key not in pos:
+                pos[key] = (int(e["line"]), int(e["col"]))
+    ok_order = all(k in pos for k in ("type", "as", "empty")) and pos["type"] < pos["empty"] and pos["as"] < pos["empty"]
+    r.inst(shape="empty enum", override_checked_before_never=ok_order, positions={k: v[0] for k, v in pos.items()})
+    if not ok_order:
+        r.fail(prop, "enum-override-after-empty enum_def", "enum_def returns `never` for an enum without variants before it looks at the container-level `type`/`as`: `#[ts(as = \"Target\")] enum Marker {}` is declared `never` instead of Target's type",
+               ef["file"] if ef else None, pos.get("empty", (None,))[0])
+
+
+def enum_override_order_rule(syn, prop, rule):
+    r = Result(rule, "enum_def looks at the container-level `#[ts(type = ..)]` / `#[ts(as = ..)]` before it declares an enum without variants as `never`: `as` changes the presentation of every enum, the empty one included")
+    _enum_override_order(syn, prop, r)
+    r.floor = 1
+    return r
+
+
 def struct_dispatch_rule(syn, prop, rule="C01.R6"):
     r = Result(rule, "type_def dispatches on the shape of the fields like serde's data model: named (non-empty or tagged) → object; empty named without tag → empty object; 0 unnamed → empty array; 1 unnamed → the inner type (newtype); n unnamed → tuple; unit → null; and each empty shape uses the narrowest TypeScript type")
     fn = syn.fn("types::type_def", "types/mod.rs")
@@ -1507,6 +1530,16 @@ def struct_dispatch_rule(syn, prop, rule="C01.R6"):
         r.fail(prop, "newtype-struct-skip-null types::newtype::newtype",
                "newtype() declares `null` for a skipped field also when it formats a newtype *struct*: `struct N(#[serde(skip)] i32)` is declared `null`, serde_json::to_string(&N(1)) is `1`",
                nf["file"], skip_null[0]["line"])
+    # serde decides "tuple or newtype" by the number of fields *written*, before looking at `skip`: a tuple struct or tuple
+    # variant whose fields are all skipped is still an (empty) array, `[]`
+    tf0 = syn.fn("types::tuple::tuple", "types/tuple.rs")
+    unit_calls = [e for e in (S.events(tf0, "call") if tf0 else []) if re.search(r"unit::(null|empty_object|empty_array)$", S.squash(e["func"]))]
+    r.inst(shape="tuple with every field skipped", declared_by_tuple_template=not unit_calls, serde="[]")
+    if unit_calls:
+        r.fail(prop, "tuple-all-skipped-not-array types::tuple::tuple",
+               "tuple() hands a tuple whose fields are all skipped to %s: `struct T(#[serde(skip)] A, #[serde(skip)] B)` is declared `null` where serde writes `[]`" % S.squash(unit_calls[0]["func"]),
+               tf0["file"], unit_calls[0]["line"])
+    _enum_override_order(syn, prop, r)
     # tuple and newtype shapes
     tf = syn.fn("types::tuple::tuple", "types/tuple.rs")
     ok = False
@@ -1789,6 +1822,16 @@ def type_walker_rule(syn, prop, rule, qual, file_suffix, leaf, leaf_test, desc):
         if not rec:
             r.fail(prop, "walker-coverage %s Type::%s" % (name, ctor),
                    "%s does not descend into Type::%s, so a type nested in that constructor is not %s" % (name, ctor, leaf),
+                   fn["file"], m["line"])
+    if name == "replace_underscore":
+        # `<Wire as Encode<_>>::Repr`, `a::B<_>::C`: a `_` can sit in the arguments of any segment
+        loops = [e for e in fn["events"] if e["kind"] in ("for",) and "path.segments" in S.squash(e.get("iter", e.get("expr", "")))]
+        partial = [e for e in S.events(fn, "mcall") if S.squash(e["method"]) in ("last", "last_mut", "first", "first_mut") and "segments" in S.squash(e["recv"])]
+        allseg = bool(loops) and not partial
+        r.inst(fn=fn["qual"], constructor="Path (every segment)", recurses=allseg)
+        if not allseg:
+            r.fail(prop, "walker-coverage %s Type::Path/segments" % name,
+                   "%s looks at one segment of a path only: in `#[ts(as = \"<Wire as Encode<_>>::Repr\")]` the `_` sits in a segment that is not the last one and stays in the generated code (E0121/E0283)" % name,
                    fn["file"], m["line"])
     ok_leaf = leaf_test(fn, arms)
     r.inst(fn=fn["qual"], leaf=leaf, ok=ok_leaf)
@@ -2316,5 +2359,58 @@ def escape_coverage_rule(syn, prop, rule="C04.R10"):
         r.fail(prop, "escape-incomplete utils::escape_string %s" % ",".join(repr(c).strip("'") for c in missing),
                "escape_string leaves %s as it is: `#[ts(rename = \"a\\nb\")]` (or a tag / variant name with a line break) puts a raw line break inside a double-quoted TypeScript string" % ", ".join(repr(c) for c in missing),
                fn["file"], fn["line"])
+    r.floor = 1
+    return r
+
+
+def written_value_rule(syn, prop, rule="C10.R14"):
+    """`Attr::merge` reads `None` as "not written".  A key that was written must therefore be recorded as `Some(..)`,
+    whatever its value is - a parser that maps some written value to `None` hands the decision back to the other spelling."""
+    r = Result(rule, "in every attribute parser an arm that stores the value of an Option-typed field stores `Some(<parsed value>)`: no written value (e.g. `rename_all = \"snake_case\"`, which changes no field name) is turned into `None`, which merge() would take for `not specified` and let the other attribute win")
+    n = 0
+    for name, t in sorted(syn.tables().items()):
+        for a in t["arms"]:
+            ex = S.squash(a["expr"])
+            m = re.match(r"^out(\.0)?\.(\w+)=(.*)$", ex)
+            if not m:
+                continue
+            fld, rhs = m.group(2), m.group(3)
+            if rhs in ("true", "false") or re.match(r"^(Some\(.*\)|parse_optional\(input\)\?|Optional::.*|parse_concrete\(input\)\?)$", rhs):
+                n += 1
+                r.inst(table=name, key=a["keys"], stores=rhs[:50], recorded_as_written=True)
+                continue
+            # direct parse results for non-Option fields are fine; a post-processed result is what we look for
+            post = re.search(r"\)\?\.(\w+)\(", rhs)
+            direct = re.match(r"^\w+\(input\)\?$", rhs) is not None
+            r.inst(table=name, key=a["keys"], stores=rhs[:70], recorded_as_written=direct and not post)
+            n += 1
+            if post or not direct:
+                r.fail(prop, "written-value-not-recorded %s.%s" % (name, fld),
+                       "the arm stores `%s`: a written `%s` can end up as `None` (or as something other than what was parsed), and merge() then lets the other spelling's value win - `#[serde(rename_all = \"camelCase\")] #[ts(rename_all = \"snake_case\")]` renames to camelCase" % (a["expr"], a["keys"]),
+                       t["file"], a["line"])
+    r.stats["arms"] = n
+    r.floor = 40
+    return r
+
+
+def variant_name_flow_rule(syn, prop, rule="C09.R5"):
+    """the name computed for a variant (rename, else the enum's rename_all applied to the identifier) is the name every
+    representation uses - the struct body of an internally tagged variant included, which writes it as the tag value"""
+    r = Result(rule, "format_variant hands the variant's computed name (`ts_name`: explicit rename, else rename_all applied to the identifier) to type_def(), which uses it as the tag value of an internally tagged struct variant; it does not hand over the raw identifier")
+    fn = syn.fn("types::enum::format_variant", "types/enum.rs")
+    if fn is None:
+        r.fail(prop, "anchor-missing format_variant", "not found")
+        return r
+    calls = [e for e in S.events(fn, "call") if S.squash(e["func"]).endswith("type_def")]
+    if not calls:
+        r.fail(prop, "anchor-missing type_def call", "format_variant does not call type_def", fn["file"], fn["line"])
+    for e in calls:
+        args = [S.squash(a) for a in e["args"]]
+        ok = len(args) >= 2 and re.match(r"^&?ts_name(\.clone\(\))?$", args[1]) is not None
+        r.inst(fn=fn["qual"], type_def_args=args, name_is_computed_variant_name=ok)
+        if not ok:
+            r.fail(prop, "variant-name-not-passed format_variant -> type_def",
+                   "type_def() receives `%s` instead of the variant's computed name: the tag value of an internally tagged struct variant ignores the enum's rename_all (`\"kind\": \"KeyPress\"` where serde writes `\"key_press\"`)" % (args[1] if len(args) > 1 else "?"),
+                   fn["file"], e["line"])
     r.floor = 1
     return r
